@@ -496,6 +496,26 @@ def StmtOK (env : Env) (s : Stmt) : Prop :=
   (fragStmtSetop env s = true ∧ stmtScopedSetop env s = true) ∨
   plainStmt s = true
 
+/-- `StmtOK` as a Boolean, for the correspondence check (`lean/StmtOk.lean` evaluates it on the generated statements; the harness
+    then requires the implementation to show NO projection failure on them, known finding or not) -/
+def stmtOKb (env : Env) (s : Stmt) : Bool :=
+  ((fragStmt env s || fragStmtCols env s) && stmtScoped env s) || (fragStmtSetop env s && stmtScopedSetop env s) || plainStmt s
+
+theorem stmtOKb_iff (env : Env) (s : Stmt) : stmtOKb env s = true ↔ StmtOK env s := by
+  unfold stmtOKb StmtOK
+  simp only [Bool.or_eq_true, Bool.and_eq_true]
+  constructor
+  · rintro ((⟨h1 | h1, h2⟩ | h) | h)
+    · exact Or.inl ⟨Or.inl h1, h2⟩
+    · exact Or.inl ⟨Or.inr h1, h2⟩
+    · exact Or.inr (Or.inl h)
+    · exact Or.inr (Or.inr h)
+  · rintro (⟨h1 | h1, h2⟩ | h | h)
+    · exact Or.inl (Or.inl ⟨Or.inl h1, h2⟩)
+    · exact Or.inl (Or.inl ⟨Or.inr h1, h2⟩)
+    · exact Or.inl (Or.inr h)
+    · exact Or.inr h
+
 /-- every holder `analyze` returns for such a statement projects and is well-formed -/
 theorem stmtOK_holder (env : Env) (silent : Bool) (s : Stmt) (hp : env.prov.truthy = false) (h : StmtOK env s) (g : LGraph)
     (hg : analyze env silent s = .ok g) : HolderOK g ∧ WF g := by
